@@ -15,6 +15,7 @@ EXPLANATION = (
     "taken is woken or re-queued; loops exit only on exhaustion; no Vec<Waker> dropped/cleared); (R6) "
     "register-then-recheck: on the QueueFull path queue space is re-checked after the waker was registered. "
     "Liveness over all interleavings is not decided (these are necessary conditions)."
+    ' Also decided: (R5 room-polarity) wake_blocked_futures returns early exactly when there is no room; (R8 = C11.R6) Shared::enter hands the timeout to the kernel (timespec, args.ts, EXT_ARG) on every path and wakes a sleeping kernel thread.'
 )
 NOT_DECIDED = "liveness over all interleavings and memory-ordering subtleties"
 ASSUMPTIONS = ["Waker::wake / will_wake / clone_from behave as documented"]
